@@ -211,6 +211,22 @@ def release_case(ctx, case):
         # hops whose only sigfield is present but empty
         for i in range(1, n, 2):
             sfs[i] = {'sigfield%d' % (1 + i % 8): b''}
+    # history: the same parties signed an earlier payment over the same chain - same keys, tweak points, flags and field
+    # names, other field contents; those witnesses bind the earlier contents only and leave nothing behind for the later ones
+    old = [{k: v + b'-earlier' for k, v in f.items()} for f in sfs]
+    try:
+        for i in range(n):
+            w0 = T.make_adapter_witness(sk[i], res[pk[i]][2], dict(old[i]), flags)
+            for which, fields_, want in (('its own', old[i], True), ('the later', sfs[i], False)):
+                covered = any(not (fl0 >> (int(k[-1]) - 1)) & 1 for k in fields_) if (fl0 := int(flags, 16)) else True
+                got = F.run_auth_scripts([w0.bytes, res[pk[i]][0].bytes], dict(fields_))
+                ctx.ran()
+                if got is not (want or not covered):
+                    ctx.violation({'clause': 'adapter witness of an earlier payment is bound to exactly its own sigfield contents',
+                                   'fields': which}, f'seed {sname} n={n} flags={flags} hop {i}: {got!r}')
+    except BaseException as e:
+        ctx.violation({'clause': 'every hop gets an adapter witness', 'how': 'raises', 'when': 'earlier payment'}, f'seed {sname} n={n} flags={flags}: {e!r}')
+        return
     try:
         wits = [T.make_adapter_witness(sk[i], res[pk[i]][2], dict(sfs[i]), flags) for i in range(n)]
     except BaseException as e:
